@@ -175,14 +175,14 @@ def run(facts, rep):
         if not found:
             rep.violation(R, key, "Ciphertext::is_metadata_valid_for never compares the correction factor with the plain "
                           "modulus: a factor of t or more (not a unit modulo t) is accepted", facts.loc(pm))
-        elif all(op == ">=" for _, op in found):
-            zero = any(x.get("k") == "Bin" and x.get("op") == "==" and "correction_factor" in names(x["a"]) | names(x["b"]) and
+        elif all(op in (">=", "<") for _, op in found):        # refuse cf >= t  /  accept cf < t: equality is out
+            zero = any(x.get("k") == "Bin" and x.get("op") in ("==", "!=") and "correction_factor" in names(x["a"]) | names(x["b"]) and
                        any(strip(z).get("v") == "0" for z in (x["a"], x["b"])) for x in walk(body))
             if zero:
                 rep.ok(R, key, "refuses cf == 0 and cf >= t", facts.loc(pm, found[0][0]))
             else:
                 rep.violation(R, key, "the correction factor 0 is not refused", facts.loc(pm, found[0][0]))
-        elif any(op == ">" for _, op in found):
+        elif any(op in (">", "<=") for _, op in found):        # refuse cf > t  /  accept cf <= t: equality passes
             rep.violation(R, key, "the correction factor is refused only when it EXCEEDS t: cf == t (0 modulo t, not a unit) "
                           "passes validation, and products / mod-switches of such an operand carry correction factor 0",
                           facts.loc(pm, found[0][0]))
